@@ -18,6 +18,7 @@ import itertools
 import json
 import os
 import random
+import time
 from concurrent.futures import ProcessPoolExecutor, ThreadPoolExecutor
 
 from .. import core
@@ -49,10 +50,10 @@ def model_check(tier):
     quick = tier == "quick"
     done, extra = [], {}
     runs = [  # (name, domain, MaxLen, Attr, explore the loops)
-        ("ints", "DomInts", 5 if quick else 6, "AttrNone", True),
+        ("ints", "DomInts", 4 if quick else 6, "AttrNone", True),
         ("strs", "DomStrs", 3 if quick else 5, "AttrNone", True),
         ("recs_x", "DomRecs", 3 if quick else 4, "AttrX", False),
-        ("recs_yx", "DomRecs", 3 if quick else 4, "AttrYX", False),
+        ("recs_yx", "DomRecs", 2 if quick else 4, "AttrYX", False),
     ]
     if not quick:
         runs += [("str2", "DomStr2", 5, "AttrNone", False), ("recs_xy", "DomRecs", 4, "AttrXY", False)]
@@ -530,13 +531,19 @@ def run(ck):
     with ThreadPoolExecutor(max_workers=1) as bg:
         # TLC on the spec itself, concurrently with the observation of the real code
         mc = bg.submit((lambda t: ([], {})) if only else model_check, ck.tier)
+        t0 = time.time()
         cases = gen_cases(ck.tier, ck.seed)
+        t1 = time.time()
         if only:
             cases = [c for c in cases if c["f"] in only]
             ck.exhaustive = False
         recs, nruns = observe_all(cases)
+        t2 = time.time()
         rejected = fu.tlc_validate(ck, "SeqFiltersTrace", recs, batch=7000, parallel=4 if ck.tier == "quick" else 6)
+        t3 = time.time()
         done, extra = mc.result()
+    ck.extra["phase_s"] = {"generate": round(t1 - t0, 1), "observe_real_code": round(t2 - t1, 1),
+                           "tlc_validate": round(t3 - t2, 1), "wait_model_check": round(time.time() - t3, 1)}
     for r, label in done:
         ck.add_tlc(r, label)
     ck.extra.update(extra)
